@@ -13,6 +13,7 @@ def run(tier, seed):
              'through infinitesimals), lie within the reported bounds, the bounds exclude no real solution (Fourier-Motzkin), '
              'and every learnt clause / false answer is justified by infeasibility; distinct_nontrivial = distinct executions '
              'that assume at least one linear-relation literal',
+        release_too=True,
         assumptions=['at most 6 theory atoms and 5 arithmetic variables per execution (Fourier-Motzkin in TLC)',
                      'numbers beyond 20000 in magnitude make an execution "wide": it is dropped and counted'],
         models=[('MC_LraSem', 'MC_LraSem_quick.cfg', 'MC_LraSem.cfg',
